@@ -12,7 +12,8 @@ RULE = ("histories as for C01 (direct / batched / mixed, prune on/off, prefix-re
         "the 32-byte embedding threshold, a family with node RLP of exactly 31/32/33 bytes); at checkpoints the implementation's "
         "root_hash is compared, inside Coq, with (a) troot keccak256 of the tree-level run of the flattened history and (b) "
         "yp_root keccak256 of the mapping alone (the Yellow-Paper specification); each final mapping is also re-inserted in 3 random "
-        "orders with overwrite/delete noise on the implementation. non-trivial = final mapping has >= 3 keys incl. a prefix pair "
+        "orders with overwrite/delete noise on the implementation; deletes on copies of the database lacking one node must raise or "
+        "give the canonical root. non-trivial = final mapping has >= 3 keys incl. a prefix pair "
         "or a hashed child")
 
 
@@ -87,6 +88,31 @@ def reorder_check(rng, m, root):
     return None
 
 
+def incomplete_db_check(rng, m, backing, root):
+    """The root must be canonical after EVERY operation that succeeds - also on a database from which node bodies are missing
+    (a partially synced database): a write there either raises or gives the root of the resulting mapping."""
+    from trie import HexaryTrie
+    hashed = [h for h in HX.reachable(backing, root) if h != root]
+    if not hashed or len(m) < 2:
+        return None
+    for h in rng.sample(hashed, min(4, len(hashed))):
+        for k in list(m)[:6]:
+            db = {a: b for a, b in backing.items() if a != h}
+            t = HexaryTrie(db, root)
+            try:
+                t.delete(k)
+            except Exception:
+                continue
+            ref = HexaryTrie({})
+            for k2, v2 in m.items():
+                if k2 != k:
+                    ref[k2] = v2
+            if t.root_hash != ref.root_hash:
+                return (f"delete({k.hex()}) succeeded on a database lacking node {h.hex()[:12]} but the root is not the canonical root of the "
+                        "remaining mapping")
+    return None
+
+
 def nontrivial(m, kinds):
     ks = sorted(m)
     pref = any(a != b and b.startswith(a) for a in ks for b in ks)
@@ -116,6 +142,9 @@ def check(tier, seed):
         bad = reorder_check(rng, m, root)
         if bad:
             R.spec_violations.append((bad, {"prune": case["prune"], "ops": case["ops"]}))
+        bad = incomplete_db_check(rng, m, backing, bytes(t.root_hash)) if not case["prune"] else None
+        if bad:
+            R.spec_violations.append((bad, {"prune": case["prune"], "ops": case["ops"], "incomplete": True}))
         kinds = HX.classify_trie(backing, t.root_hash)
         for kk, vv in kinds.items():
             R.count("final_" + kk, vv)
@@ -162,6 +191,8 @@ def replay(payload):
     terms = [yp_case(m, root) for _, m, root in cps]
     my, ey, _ = C.eval_cases("C02", "replay", IMPORTS_T, "c02_yp_run", "list (bytes * bytes)", terms, shard=50)
     bad = reorder_check(random.Random(1), cps[-1][1], cps[-1][2]) if cps else None
+    if cps and not bad and case.get("incomplete"):
+        bad = incomplete_db_check(random.Random(1), cps[-1][1], backing, bytes(t.root_hash))
     if my or ey:
         bad = f"root differs from yp_root at checkpoints {my} {ey[:1]}"
     print("replay:", "VIOLATES: " + bad if bad else "holds")
